@@ -28,6 +28,18 @@ func LRFamily() [][]*Rule {
 		func() []*Node { x := n(KLab, ref("Nul")); x.Label = "x"; return []*Node{x} },
 		func() []*Node { return []*Node{n(KAlt, lit("-"), ref("Nul"))} },
 		func() []*Node { return []*Node{ref("Nul"), ref("Nul2"), n(KOpt, lit("+"))} },
+		// a code block inside the prefix: an action over a nullable group, alone, labelled, and over a non-nullable one
+		func() []*Node { cid++; x := n(KAct, n(KOpt, lit("-"))); x.Cid = cid; return []*Node{x} },
+		func() []*Node {
+			cid++
+			x := n(KAct, n(KOpt, lit("-")))
+			x.Cid = cid
+			l := n(KLab, x)
+			l.Label = "s"
+			return []*Node{l}
+		},
+		func() []*Node { cid++; x := n(KAct, lit("-")); x.Cid = cid; return []*Node{x} },
+		func() []*Node { cid++; x := n(KAct, ref("Nul")); x.Cid = cid; return []*Node{n(KOpt, lit("+")), x} },
 	}
 	wrappers := []func(e *Node) *Node{
 		func(e *Node) *Node { return e },
